@@ -342,6 +342,8 @@ import (
 //@ func handleFallbackData
 //@   requires s != nil && len(h) >= 8
 //@   preserves sessOK(s)
+//@   at call? newBufferSlice#0 check[C07,C06] region(a1) != region(buf) && len(a1) == int(be32(h, 0)) - 16      // the payload handed to the stream is a private copy of exactly the event's payload: the connection's read buffer is reused by the next read
+//@   at call? newBufferSlice#0 check[C07,C06] forall k in [0, len(a1)): mem8(a1, k) == mem8(buf, 8 + k)
 //@   ensures  0 <= r0 && r0 <= 8 + len(buf) && (r1 ==> r0 == 0 && r2 == nil)
 
 //@ func handleHotRestart
@@ -1143,6 +1145,7 @@ func lemmaCreateThenMapQueue(data []byte, cap uint32) {
 // notified: a close notification was handed to the queue or to the event connection; cleaned: clean() ran
 //@ func (*Stream).close
 //@   preserves[C10,C05,C09] s.session.shutdown != 1 ==> sessOK(s.session)
+//@   unreachable-returns 1   // the retry exit (the state moved between the load and the CAS) cannot be taken in a sequential history; it is reachable, and needed, in the variant close@conc
 //@   ghost var won bool = false
 //@   ghost var cbs int = 0
 //@   ghost var notified bool = false
@@ -1169,6 +1172,16 @@ func lemmaCreateThenMapQueue(data []byte, cap uint32) {
 //@   exit[C05] putOK ==> woke
 //@   exit[C10] won && oldState == 0 && !sawSessionClosed ==> notified                  // a local close of an open stream is propagated to the peer
 //@   exit[C10] won && oldState == 2 && !old(s.remoteClosed) ==> notified             // ... also when Close() was deferred during OnData (state halfClosed locally): fails today, finding F6
+// close@conc: under interference on the state word (the peer's close / another closer move it forward at any
+// time) close() returns only after it has seen the stream closed or has closed it itself - a local close is final
+//@   interference[C10@conc] s.state
+//@   rely[C10@conc] s.state == old(s.state) || (old(s.state) == 0 && (s.state == 2 || s.state == 1)) || (old(s.state) == 2 && s.state == 1)
+//@   ghost var sawClosed bool = false
+//@   at call? (*Stream).getStreamState#0 ghost[C10@conc] sawClosed := r0 == 1
+//@   at call? (*Stream).getStreamState#1 ghost[C10@conc] sawClosed := r0 == 1
+//@   ghost var recursed bool = false
+//@   at call? (*Stream).close#0 ghost[C10@conc] recursed := true
+//@   exit[C10@conc] sawClosed || won || recursed      // recursed: the result is that of a nested close() from the new state, which satisfies this clause by induction (states only move forward: at most two retries)
 //@   modifies heap
 
 //@ func (*Session).waitForSend
